@@ -85,6 +85,21 @@ def check_patches(prog, r):
                 r.ok("%s: `%s` is patched on every successful path" % (short(fv.name), posv))
             else:
                 r.fail(fv.name, "patch-skipped:" + posv, "a path from the placeholder to a successful return skips the write-back at `%s`" % posv, fv.loc(d))
+        # every message opened in this function records its own start: a (re)definition of the placeholder position must be
+        # preceded by a (re)definition of the start position with no other message boundary in between
+        if startv != posv:
+            sdefs = [bi for l, nm_ in fv.local_name.items() if nm_ == startv for bi, si, s_ in fv.defs().get(l, []) if bi in fv.live]
+            for d in defs:
+                others = [x for x in defs if x != d] + [p_ for p_ in patches]
+                fresh = any(d == sd or d in fv.reach_after(sd, [x for x in others if x != sd and x != d]) for sd in sdefs)
+                # a start recorded before an *earlier* placeholder does not count: require a start definition that is not
+                # followed by another placeholder definition before reaching d
+                if fresh and len(sdefs) >= len(defs):
+                    continue
+                if len(sdefs) < len(defs):
+                    r.fail(fv.name, "start-not-rerecorded:" + startv, "`%s` is (re)recorded %d time(s) but the length placeholder `%s` %d time(s): a message opened later in the same call is "
+                           "measured from the start of an earlier one, so its length field covers more than the message" % (startv, len(sdefs), posv, len(defs)), fv.loc(d))
+                    break
         # the value written: some `len(dst) - <start>` (a Sub whose right operand is the named start position and whose
         # left operand comes from a len() call) must flow into the value operand of the write_uNN that follows the patch
         ok_val = False
